@@ -168,6 +168,13 @@ class StreamSession:
             wire_stream_logger.debug("Stream exchange: sending input")
         try:
             self._write_batch(input)
+        except pa.ArrowInvalid as exc:
+            # Refused locally before any byte was sent (e.g. the schema differs from the
+            # stream's first batch).  The transport is intact, so end the stream properly:
+            # marking it closed without writing EOS would leave the server inside the
+            # stream loop, where it swallows the next request.
+            self.close()
+            raise RpcError("ProtocolError", f"Input batch rejected before sending: {exc}", "") from exc
         except _TRANSPORT_ERRORS as exc:
             # Set _closed directly — calling close() would attempt I/O on the broken transport.
             self._closed = True
@@ -199,6 +206,10 @@ class StreamSession:
             wire_stream_logger.debug("Stream tick")
         try:
             self._write_batch(_TICK_BATCH)
+        except pa.ArrowInvalid as exc:
+            # Same as exchange(): a tick on a stream whose input schema is not empty.
+            self.close()
+            raise RpcError("ProtocolError", f"Tick rejected before sending: {exc}", "") from exc
         except _TRANSPORT_ERRORS as exc:
             # Set _closed directly — calling close() would attempt I/O on the broken transport.
             self._closed = True
